@@ -30,8 +30,26 @@ pub fn describe(rq: &Request, nonce: &str) -> Delivered {
         headers: rq.headers().iter().map(|h| (h.field.as_str().as_str().to_string(), h.value.as_str().to_string())).collect(),
         remote_addr: rq.remote_addr().map(|a| a.to_string()),
         body_length: rq.body_length(),
+        views: views(rq),
         ..Delivered::default()
     }
+}
+
+fn views(rq: &Request) -> Vec<String> {
+    let mut v = vec![format!("m={}", rq.method()), format!("v={}", rq.http_version())];
+    let mut eq = "e=ok".to_string();
+    for h in rq.headers() {
+        v.push(format!("h={}", h));
+        let name = h.field.as_str().as_str();
+        let same = |s: &str| s.parse::<tiny_http::HeaderField>().map(|f| f == h.field).unwrap_or(false);
+        let statics_ok = ["Host", "HOST", "content-length", "Connection", "TE", "X"].iter().all(|n| h.field.equiv(n) == name.eq_ignore_ascii_case(n));
+        if !same(&name.to_ascii_uppercase()) || !same(&name.to_ascii_lowercase()) || same(&format!("{}x", name)) || (name.len() > 1 && same(&name[..name.len() - 1])) || !statics_ok {
+            eq = format!("e=name {:?}", name);
+        }
+    }
+    v.push(format!("d={:?}", rq));
+    v.push(eq);
+    v
 }
 
 fn run_reads(rq: &mut Request, plan: &ReadPlan, d: &mut Delivered) {
